@@ -1,6 +1,6 @@
 (* C08 — non-vacuity examples for the hypotheses of Props.v, and refutation witnesses *)
 From Coq Require Import ZArith List Lia.
-From FV Require Import Lib.RustInt C08.Model C08.Proofs C08.Iter4 C08.Fits4 C08.Var14 C08.Reader.
+From FV Require Import Lib.RustInt C08.Model C08.Proofs C08.Iter4 C08.Fits4 C08.Var14 C08.Reader C08.Iter14.
 Import ListNotations.
 Open Scope Z_scope.
 
@@ -78,3 +78,12 @@ Proof. vm_compute. auto. Qed.
 Definition ex_overlap : T4 := mkT4 4 [20; 25] [10; 15] [0; 0] [4; 24] [1; 2; 3; 4; 5; 6; 7; 8; 9; 10; 11; 12; 13; 14; 15; 16; 17; 18; 19; 20; 21; 22].
 Example ex_overlap_disagree : cmap4_map ex_overlap 21 = Some 18 /\ In (21, 12) (cmap4_iter ex_overlap).
 Proof. vm_compute. intuition. Qed.
+
+(* the example selector table is disjoint; its enumeration expands a range with additionalCount 255 to 256 entries *)
+Example ex_dn14 : Forall dn_disjoint ex_sels.
+Proof. apply dn14b_sound. vm_compute. reflexivity. Qed.
+Example ex_iter14 : length (cmap14_iter ex_sels) = (10 + 1 + 2 + 1 + 256)%nat
+  /\ In (57, 65024, None) (cmap14_iter ex_sels) /\ In (255, 917761, None) (cmap14_iter ex_sels) /\ In (300, 65024, Some 8) (cmap14_iter ex_sels).
+Proof. vm_compute. intuition. Qed.
+Example ex_default_255_at_10FFFF : default_uvs_iter [(1113856, 255)] = zrange 1113856 1114112.
+Proof. vm_compute. reflexivity. Qed.
